@@ -56,6 +56,7 @@ def dispatch (op : String) (args : List String) (impl : String) : Answer :=
   | "C20.list" => c20List args impl
   | "C20.bid" => c20Bid args impl
   | "C20.insc" => c20Insc args impl
+  | "C20.reinsc" => c20Reinsc args impl
   | "C20.specific" => c20Specific args impl
   | _ => ("unknown-op", "n/a")
 
